@@ -30,6 +30,8 @@ if src is not None:
   if not ok:
       sys.exit(1)
 if src is not None:
+  if os.path.exists(dst + "/patch.diff") and open(dst + "/patch.diff").read() != open(src + "/patch.diff").read():
+      sys.exit("refusing to overwrite %s with a different change: set SEED_AS=<free name>" % dst)
   os.makedirs(dst, exist_ok=True)
   for f in ("patch.diff", "demo_test.go", "notes.md"):
       if os.path.exists(src + "/" + f):
